@@ -57,7 +57,10 @@ func Load(repo, tags string) (*World, error) {
 		renamed[fn.RelString(w.Types)] = true
 		renamed[unaliasTypes(fn.RelString(w.Types))] = true
 	}
-	known := func(key string) bool { _, ok := funcInventory[unaliasTypes(key)]; return ok || renamed[key] || renamed[unaliasTypes(key)] }
+	known := func(key string) bool {
+		_, ok := funcInventory[unaliasTypes(key)]
+		return ok || renamed[key] || renamed[unaliasTypes(key)]
+	}
 	overlay, notes, nerr := normalizeHelpers(repo, tags, os.Getenv("PATH"), known)
 	if nerr != nil || len(overlay) == 0 {
 		if nerr != nil {
@@ -162,7 +165,9 @@ func loadWith(repo, tags string, overlay map[string][]byte) (*World, error) {
 		w.Funcs = append(w.Funcs, fn)
 		w.byName[unaliasTypes(fn.RelString(w.Types))] = fn
 	}
-	sort.Slice(w.Funcs, func(i, j int) bool { return unaliasTypes(w.Funcs[i].RelString(w.Types)) < unaliasTypes(w.Funcs[j].RelString(w.Types)) })
+	sort.Slice(w.Funcs, func(i, j int) bool {
+		return unaliasTypes(w.Funcs[i].RelString(w.Types)) < unaliasTypes(w.Funcs[j].RelString(w.Types))
+	})
 	for _, f := range p.Syntax {
 		for _, d := range f.Decls {
 			fd, ok := d.(*ast.FuncDecl)
@@ -180,6 +185,7 @@ func loadWith(repo, tags string, overlay map[string][]byte) (*World, error) {
 		return nil, fmt.Errorf("load: only %d source functions found (expected > 300)", len(w.Funcs))
 	}
 	w.RoleNotes = append(append(typeNotes, w.resolveRoles()...), w.resolveFieldAliases()...)
+	foldInfo = w.Info
 	return w, nil
 }
 
